@@ -219,6 +219,16 @@ def starts_after_trivia(src, r, prefixes):
     return any(s.startswith(p) for p in prefixes)
 
 
+def ends_at_last_token(src, r, terminators):
+    """the full range runs to the construct's last token: either it includes the terminator, or the terminator is the
+    next token after it (only whitespace/comments in between)"""
+    full = src.slice(r).rstrip()
+    if any(full.endswith(t) for t in terminators):
+        return True
+    rest = skip_trivia(src.b[r.e:].decode("utf-8", errors="replace"))
+    return any(rest.startswith(t) for t in terminators)
+
+
 def check_C04_exact(p):
     fr = p["fr"]
     a = fr["ast"]
@@ -270,6 +280,8 @@ def check_C04_exact(p):
             tail = full.rstrip()
             if not (tail.endswith(")") or tail.endswith(";") or tail[-1:].isdigit()):
                 return f"{path}: full range ends with {full[-10:]!r}"
+            if not ends_at_last_token(src, m["full"], [";"]):
+                return f"{path}: full range does not reach the method's last token: {full[-20:]!r}"
             ow = src.slice(m["oneway_range"])
             if strip_all_trivia(ow) not in ("", "oneway"):
                 return f"{path}: oneway range covers {ow!r}"
@@ -304,9 +316,13 @@ def check_C04_exact(p):
             want = ["const"] if m["m"] == "const" else [src.slice(m["type"]["full"])]
             if not starts_after_trivia(src, m["full"], want):
                 return f"{path}: full range starts with {skip_trivia(full)[:20]!r}"
+            if not ends_at_last_token(src, m["full"], [";"]):
+                return f"{path}: full range does not reach the member's last token: {full[-20:]!r}"
         else:
             if not starts_after_trivia(src, m["full"], [m["name"]]):
                 return f"{path}: full range starts with {skip_trivia(full)[:20]!r}"
+            if not ends_at_last_token(src, m["full"], [",", "}"]):
+                return f"{path}: full range does not reach the element's last token: {full[-20:]!r}"
     return None
 
 
